@@ -10,7 +10,7 @@ def _many_sends():
             [('open', 'polling', 'accept')] + sends + [('transport', 0), ('poll', 0), ('poll', 0)]]
 
 
-PROFILE = {'fixed': _many_sends(), 'quick': 500, 'thorough': 3000, 'lengths': [10, 18, 26], 'finale': ['settle'], 'weights': {'bad': 14, 'post': 16, 'poll': 14, 'disc': 8, 'disc_all': 2, 'send': 8, 'api': 6, 'adv': 8, 'frame': 8, 'upgrade': 4, 'open_ws': 4, 'open_rej': 3}, 'p_async': 0.35}
+PROFILE = {'fixed': _many_sends(), 'quick': 500, 'thorough': 25000, 'lengths': [10, 18, 26], 'finale': ['settle'], 'weights': {'bad': 14, 'post': 16, 'poll': 14, 'disc': 8, 'disc_all': 2, 'send': 8, 'api': 6, 'adv': 8, 'frame': 8, 'upgrade': 4, 'open_ws': 4, 'open_rej': 3}, 'p_async': 0.35}
 RULE = ('seeded histories (opens with every connect outcome, polls, posts, upgrade handshakes, WebSocket frames and closes, application calls, refused requests, clock advances) over up to 4 sessions, each run on the threaded and the asyncio server and through the model; '
         'with malformed bodies, refused requests, API calls in every state incl. no sessions and vanished clients; finished by an advance past ping_interval+ping_timeout, after which every non-upgrade request and API call must have completed with a well-formed gateway response (validators in harness/rt.py). distinct = distinct (server, configuration, stimuli)')
 
